@@ -12,5 +12,5 @@ CONSTANTS
   Remap = FALSE
   Faults = {}
   MaxFaults = 0
-INVARIANTS TypeOK Inv_SentStored Mon_InOrder Mon_FromStart Mon_StoredDispatched
+INVARIANTS TypeOK Inv_SentStored Mon_InOrder Mon_FromStart Mon_BeforeStart Mon_StoredDispatched
 CHECK_DEADLOCK FALSE
